@@ -341,6 +341,28 @@ Fixpoint run_session (par : bool) (d : delegate) (st : dstate) (steps : list ste
   | Aborted pop :: rest => run_session par d (aborted_op par d st pop) rest
   end.
 
+(* several dispatcher objects (number j: parallel iff par j) used alternately; they may have been
+   built over one shared adapter - the adapter keeps no state, so each dispatcher only reads and
+   writes its own delegate and state *)
+Definition step_op (par : bool) (c : delegate * dstate) (s : step)
+  : (delegate * dstate) * list (res (list ind) * list ev) :=
+  let '(d, st) := c in
+  match s with
+  | Dispatch o t => ((d, dispatch_op st o t), [])
+  | Evaluate pop => let '(r, st') := evaluate_op par d st pop in ((d, st'), [r])
+  | SetDelegate d' => ((d', st), [])
+  | Aborted pop => ((d, aborted_op par d st pop), [])
+  end.
+
+Fixpoint run_multi (par : nat -> bool) (cfg : nat -> delegate * dstate) (steps : list (nat * step))
+  : list (nat * (res (list ind) * list ev)) :=
+  match steps with
+  | [] => []
+  | (j, s) :: rest =>
+      let '(c', out) := step_op (par j) (cfg j) s in
+      map (pair j) out ++ run_multi par (fun k => if Nat.eqb k j then c' else cfg k) rest
+  end.
+
 (* ------------------------------------------------------------------------------------- *)
 (* boolean equalities and small list tools for the executable predicates                   *)
 (* ------------------------------------------------------------------------------------- *)
